@@ -105,10 +105,31 @@ func (c *Core) onEnter(s *Sim, e *simrt.Event) {
 		c.unknownIDs++
 		if !c.anyCorrupt() {
 			s.Violate("C01", "fields", "msgid unknown-to-any-client", fmt.Sprintf("a handler was given message ID %d, which no client sent", e.Msg))
+			if c.Cfg.TLSMode > 0 {
+				// a handler ran, and not for bytes that arrived in a TLS session:
+				// no client sent this request at all
+				s.Violate("C18", "gate", "handler-ran-for-a-request-nobody-sent", fmt.Sprintf("route %d (%s) was given message ID %d on connection %d; no client sent such a request", e.A, c.Cfg.Routes[e.A].Kind, e.Msg, e.Conn))
+			}
 		}
 		return
 	}
 	cl := c.client(q.Client)
+	// C13: a StartTLS request is handled on its own: nothing that follows it
+	// on the connection is dispatched before its handler has returned
+	if !q.Corrupt && !q.Injected {
+		for _, prev := range cl.reqs {
+			if prev.Pos >= q.Pos {
+				break
+			}
+			if prev.Rec.Op == "extended" && prev.Rec.ExtName == oidStartTLS && !prev.Corrupt && prev.entered > 0 && prev.exited == 0 {
+				where := "plain"
+				if !prev.Script.StartTLS {
+					where = "inside-tunnel"
+				}
+				s.Violate("C13", "own", "later-request-dispatched-while-starttls-handler-runs "+where, fmt.Sprintf("%s: m=%d (%s, frame %d) entered its handler at step %d; the handler of the StartTLS request m=%d (frame %d) entered at step %d and has not returned", cl.name(), e.Msg, q.Rec.Op, q.Pos, e.Step, prev.Rec.MsgID, prev.Pos, prev.enterStep))
+			}
+		}
+	}
 	if q.Injected {
 		// judged at the end: only an upgrade that succeeded makes this a violation
 		// (after a failed handshake the connection is still a plain one)
